@@ -223,6 +223,39 @@ func (bp *boundProver) lenLB(x ssa.Value, at *ssa.BasicBlock, depth int, seen ma
 	if bp.foundOver(x, at) {
 		up(1) // a key was found in it
 	}
+	// a parameter: the argument list of an extension callback has at least MinArgs entries (the evaluator checks
+	// the count before the call, C07.R2); any other parameter has what every caller passes
+	if p, ok := x.(*ssa.Parameter); ok && depth < 2 {
+		if bp.cbMin == nil {
+			bp.cbMin = map[*ssa.Parameter]int64{}
+			for _, reg := range bp.c.ExtReg() {
+				if reg.Callback == nil {
+					continue
+				}
+				i := 2
+				if reg.Short {
+					i = 0
+				}
+				if len(reg.Callback.Params) > i {
+					ap := reg.Callback.Params[i]
+					if m, seen := bp.cbMin[ap]; !seen || int64(reg.MinArgs) < m {
+						bp.cbMin[ap] = int64(reg.MinArgs)
+					}
+				}
+			}
+		}
+		if m, isCb := bp.cbMin[p]; isCb {
+			up(m)
+		} else if sites, ok := bp.c.argsAtCallSites(p); ok && len(sites) > 0 {
+			least := int64(1) << 40
+			for _, st := range sites {
+				if l := bp.lenLB(st.v, st.b, depth+1, seen); l < least {
+					least = l
+				}
+			}
+			up(least)
+		}
+	}
 	// facts on len(x)
 	for _, cc := range controlling(at) {
 		bin, ok := cc.Cond.(*ssa.BinOp)
